@@ -130,7 +130,100 @@ fn real_main() -> i32 {
     }
 }
 
+/// Oracle cross-checks: an oracle bug must show up here, as an oracle bug, not as a crate alarm.
+///  (1) R3 (DP matcher) against R4 (reference DFA) on generated programs and strings;
+///  (2) R8 (literal scanner) against its second, table-style formulation on all short texts;
+///  (3) R6 (segment masks) against per-character evaluation near 0.
 fn selftest() -> i32 {
+    use proptest::collection::vec as pvec;
+    use proptest::prelude::*;
+    use proptest::test_runner::{Config, RngSeed, TestRunner};
+    use vcheck::prog::{Prog, ProgCfg};
+    use vcheck::tape::Tape;
+    let mut config = Config::default();
+    config.cases = 30000;
+    config.failure_persistence = None;
+    config.rng_seed = RngSeed::Fixed(std::env::var("VERIF_SEED").ok().and_then(|s| s.parse().ok()).unwrap_or(0));
+    let mut runner = TestRunner::new(config);
+    let compared = std::cell::Cell::new(0u64);
+    let r = runner.run(&pvec(any::<u8>(), 0..=160), |tape| {
+        let (ta, tb) = tape.split_at(tape.len() / 3);
+        let mut t = Tape::new(ta);
+        let mut tp = Tape::new(tb);
+        let prog = Prog::decode(&mut tp, &ProgCfg { big_p: 0, ..ProgCfg::default() });
+        let dfas = match prog.dfas() {
+            Ok(d) => d,
+            Err(_) => return Ok(()),
+        };
+        let strings = vcheck::rx::sample_strings(&mut t, &prog.atoms, Some(dfas.last().unwrap()), 5, 9);
+        for w in &strings {
+            let dp = prog.dp(w);
+            let wa = prog.word_atoms(w);
+            for slot in 0..prog.ins.len() {
+                compared.set(compared.get() + 1);
+                if dp[slot].get(0, w.len()) != dfas[slot].accepts(&wa) {
+                    return Err(proptest::test_runner::TestCaseError::fail(format!("R3 and R4 disagree on slot {} of {} for {:x?}", slot, prog.render(), w)));
+                }
+            }
+        }
+        Ok(())
+    });
+    if let Err(e) = r {
+        println!("SELFTEST FAILED (R3 vs R4): {}", e);
+        return 1;
+    }
+    println!("selftest: R3 (DP matcher) == R4 (reference DFA) on {} (slot, string) pairs", compared.get());
+    // (2) literal grammar
+    let alpha: [u32; 10] = [0x5C, 0x75, 0x7B, 0x7D, 0x30, 0x32, 0x33, 0x66, 0x41, 0x67];
+    let mut n = 0u64;
+    for len in 0..=7usize {
+        let total = alpha.len().pow(len as u32);
+        for idx in 0..total {
+            let mut w = Vec::with_capacity(len);
+            let mut x = idx;
+            for _ in 0..len {
+                w.push(alpha[x % alpha.len()]);
+                x /= alpha.len();
+            }
+            n += 1;
+            if vcheck::smtref::parse_literal(&w) != vcheck::smtref::parse_literal_alt(&w) {
+                println!("SELFTEST FAILED (R8): the two formulations disagree on {:x?}", w);
+                return 1;
+            }
+        }
+    }
+    // long escapes
+    for v in [0u32, 1, 0xF, 0x10, 0xFFF, 0x1000, 0xFFFF, 0x10000, 0x2FFFF, 0x30000, 0xFFFFF, 0x100000] {
+        for form in [format!("\\u{{{:x}}}", v), format!("\\u{{{:05x}}}", v), format!("\\u{{{:06x}}}", v), format!("\\u{:04x}", v & 0xFFFF), format!("x\\u{{{:x}", v)] {
+            let w: Vec<u32> = form.chars().map(|c| c as u32).collect();
+            n += 1;
+            if vcheck::smtref::parse_literal(&w) != vcheck::smtref::parse_literal_alt(&w) {
+                println!("SELFTEST FAILED (R8): the two formulations disagree on {:?}", form);
+                return 1;
+            }
+        }
+    }
+    println!("selftest: R8 scanner == second formulation on {} texts", n);
+    // (3) segment masks vs per-character evaluation on [0, 40]
+    let mut m = 0u64;
+    for a in 0..12u32 {
+        for b in a..12 {
+            for c in 0..12u32 {
+                for d in c..12 {
+                    let u = vcheck::ivl::Universe::from_intervals(&[(a * 3, b * 3 + 1), (c * 3 + 1, d * 3 + 2)]);
+                    let m1 = u.mask(a * 3, b * 3 + 1);
+                    let m2 = u.mask(c * 3 + 1, d * 3 + 2);
+                    let card = (0..=40u32).filter(|&x| a * 3 <= x && x <= b * 3 + 1 && c * 3 + 1 <= x && x <= d * 3 + 2).count() as u64;
+                    m += 1;
+                    if u.card(m1 & m2) != card {
+                        println!("SELFTEST FAILED (R6): intersection cardinality wrong");
+                        return 1;
+                    }
+                }
+            }
+        }
+    }
+    println!("selftest: R6 masks == per-character evaluation on {} interval pairs", m);
     0
 }
 
